@@ -60,7 +60,79 @@ def may_nl(ctx, v):
     """can the byte value v be a newline on this path?"""
     if isinstance(v, int):
         return v == 10
-    return may_be(ctx, v, 10) and 10 in byte_set(ctx, v)
+    return may_be(ctx, v, 10) and 10 in byte_set(ctx, v) and consistent_with(ctx, vkey(v), 10)
+
+
+def _eval_key(key, subst):
+    """value of a value key (interp.vkey) when the leaves in subst have the given values; None when it depends on anything else"""
+    if isinstance(key, bool):
+        return int(key)
+    if isinstance(key, int):
+        return key
+    if key in subst:
+        return subst[key]
+    if not isinstance(key, tuple) or not key:
+        return None
+    if key[0] == 'lin':
+        tot = key[1]
+        for k, c in key[2:]:
+            x = _eval_key(k, subst)
+            if x is None:
+                return None
+            tot += c * x
+        return tot
+    if key[0] != 'term' or len(key) < 3 or not isinstance(key[1], str):
+        return None
+    op = key[1]
+    xs = [_eval_key(a, subst) for a in key[2:]]
+    if any(x is None for x in xs):
+        return None
+    if op.startswith('cast:') and len(xs) == 1:
+        from .interp import wrap_int
+        return wrap_int(xs[0], op[5:])
+    base = op.split(':')[0]
+    try:
+        if len(xs) == 1:
+            return {'!': lambda a: int(not a), 'neg': lambda a: -a, '~': lambda a: ~a, 'bool': lambda a: int(bool(a))}[base](xs[0])
+        if len(xs) == 2:
+            a, b = xs
+            if base in ('/', '%') and b == 0:
+                return None
+            return {'+': lambda: a + b, '-': lambda: a - b, '*': lambda: a * b, '&': lambda: a & b, '|': lambda: a | b, '^': lambda: a ^ b,
+                    '<<': lambda: a << b if 0 <= b < 64 else None, '>>': lambda: a >> b if 0 <= b < 64 else None,
+                    '==': lambda: int(a == b), '!=': lambda: int(a != b), '<': lambda: int(a < b), '<=': lambda: int(a <= b),
+                    '>': lambda: int(a > b), '>=': lambda: int(a >= b),
+                    '/': lambda: abs(a) // abs(b) * (1 if (a >= 0) == (b >= 0) else -1), '%': lambda: a - (abs(a) // abs(b) * (1 if (a >= 0) == (b >= 0) else -1)) * b}[base]()
+    except (KeyError, TypeError):
+        return None
+    return None
+
+
+def _contains(key, leaf):
+    if key == leaf:
+        return True
+    return isinstance(key, tuple) and any(_contains(k, leaf) for k in key)
+
+
+def consistent_with(ctx, leafkey, value):
+    """is `leaf == value` compatible with every condition the path has decided (conditions that mention nothing else are evaluated)?"""
+    sub = {leafkey: value}
+    for k, truth in ctx.facts.items():
+        if k != leafkey and _contains(k, leafkey):
+            ev = _eval_key(k, sub)
+            if ev is not None and bool(ev) != bool(truth):
+                return False
+    for k, b in ctx.bounds.items():
+        if k != leafkey and _contains(k, leafkey):
+            ev = _eval_key(k, sub)
+            if ev is not None and not (b[0] <= ev <= b[1]):
+                return False
+    for k, ne in ctx.neq.items():
+        if k != leafkey and _contains(k, leafkey):
+            ev = _eval_key(k, sub)
+            if ev is not None and ev in ne:
+                return False
+    return True
 
 
 def nl_of(ctx, v):
@@ -861,9 +933,8 @@ def r183_running(P, u, rep, F, rule='R18.3'):
             continue
         pdp = pinned(ctx, dp)
         tok_region = [t for t in toks if 'len' in t and same(t['loc'], p0) and same(_uncast_lin(t['len']), _uncast_lin(dp))]
-        if tok_region:
-            rep.ob(rule, base + ':count-per-newline/token', pinned(ctx, dc) == 0,
-                   'moving the scan pointer over a token changes the line counter by %s' % (dc,), where=where, facts=facts)
+        if tok_region and pinned(ctx, dc) == 0:
+            rep.ob(rule, base + ':count-per-newline/token', True, '', where=where, facts=facts)     # (assumption: no newline inside a token)
             continue
         if isinstance(pdp, int):
             if pdp < 0 or pdp > 64:
